@@ -155,7 +155,7 @@ def case_runner(plan: dict, conn) -> None:
         procs = []
 
         def launch(i):
-            ex = Executor(job, ctrl, plan["workers"], f"{plan['prefix']}h{i}", base + 1 + i * 10, None)
+            ex = Executor(job, ctrl, plan["workers"], f"{plan['prefix']}h{i}{plan.get('host_suffix', '')}", base + 1 + i * 10, None)
             ex.register()
             ex.recv_loop()
 
